@@ -48,8 +48,11 @@ def main():
         delay = rng.choice([(0, 0), (0, 30), (0, 80)])
         seed = rng.randrange(10 ** 6)
         case = dict(topo=topo, stall_after=stall_after, speeds=speeds, delay_ms=delay, seed=seed)
-        short, ts, _ = stall_run(topo, stall_after, speeds, delay, seed, 60)
-        long_, tl, p = stall_run(topo, stall_after, speeds, delay, seed, 600)
+        # both runs last well beyond the moment of the stall (a slow producer reaches it only after a minute or so):
+        # 'short' ends 60 s, 'long' 600 s of virtual time after the latest moment the stall can begin
+        t0 = (stall_after + 4) * (sum(speeds) + 0.3)
+        short, ts, _ = stall_run(topo, stall_after, speeds, delay, seed, t0 + 60)
+        long_, tl, p = stall_run(topo, stall_after, speeds, delay, seed, t0 + 600)
         run.seen(('stall', repr(case)))
         run.count('stall:%s' % topo)
         if ts is None:
